@@ -2,12 +2,18 @@ package goat
 
 import (
 	"context"
+	"fmt"
 	"sync"
+
+	"github.com/avos-io/goat/internal"
 )
 
 type demuxConn struct {
 	r chan *Rpc
 	w chan *Rpc
+	// done is closed when the connection is cancelled. The data channels are
+	// never closed: Run and the connection's users may be sending on them.
+	done chan struct{}
 }
 
 // Wraps a Goat Server, demultiplexing IO.
@@ -26,7 +32,7 @@ type Demux struct {
 	onNewConnection func(RpcReadWriter)
 }
 
-// NewDemux returns a new Demux which demultiplexex RPCs from the given |rw| 
+// NewDemux returns a new Demux which demultiplexex RPCs from the given |rw|
 // into |onNewConnection| based the identity returned from |demuxOn|.
 func NewDemux(
 	ctx context.Context,
@@ -66,7 +72,13 @@ func (gsd *Demux) Run() {
 		}
 		gsd.conns.Unlock()
 
-		conn.r <- rpc
+		select {
+		case conn.r <- rpc:
+		case <-conn.done:
+			// Cancelled while we were waiting for its reader: drop.
+		case <-gsd.ctx.Done():
+			return
+		}
 	}
 }
 
@@ -75,8 +87,7 @@ func (gsd *Demux) Cancel(id string) {
 	defer gsd.conns.Unlock()
 
 	if conn, ok := gsd.conns.value[id]; ok {
-		close(conn.r)
-		close(conn.w)
+		close(conn.done)
 	}
 
 	delete(gsd.conns.value, id)
@@ -84,8 +95,9 @@ func (gsd *Demux) Cancel(id string) {
 
 func (gsd *Demux) newConnLocked(id string) *demuxConn {
 	c := &demuxConn{
-		r: make(chan *Rpc),
-		w: make(chan *Rpc),
+		r:    make(chan *Rpc),
+		w:    make(chan *Rpc),
+		done: make(chan struct{}),
 	}
 
 	go func() {
@@ -93,10 +105,9 @@ func (gsd *Demux) newConnLocked(id string) *demuxConn {
 			select {
 			case <-gsd.ctx.Done():
 				return
-			case rpc, ok := <-c.w:
-				if !ok {
-					return
-				}
+			case <-c.done:
+				return
+			case rpc := <-c.w:
 				err := gsd.rw.Write(gsd.ctx, rpc)
 				if err != nil {
 					return
@@ -107,7 +118,39 @@ func (gsd *Demux) newConnLocked(id string) *demuxConn {
 
 	gsd.conns.value[id] = c
 
-	go gsd.onNewConnection(NewGoatOverChannel(c.r, c.w))
+	go gsd.onNewConnection(gsd.connReadWriter(c))
 
 	return c
+}
+
+// connReadWriter is the logical connection handed to onNewConnection. Reads
+// and writes fail once the connection is cancelled or the Demux is stopped.
+func (gsd *Demux) connReadWriter(c *demuxConn) RpcReadWriter {
+	read := func(ctx context.Context) (*Rpc, error) {
+		select {
+		case <-ctx.Done():
+			return nil, ctx.Err()
+		case <-c.done:
+			return nil, fmt.Errorf("demux connection cancelled")
+		case <-gsd.ctx.Done():
+			return nil, fmt.Errorf("demux stopped")
+		case rpc := <-c.r:
+			return rpc, nil
+		}
+	}
+
+	write := func(ctx context.Context, rpc *Rpc) error {
+		select {
+		case <-ctx.Done():
+			return ctx.Err()
+		case <-c.done:
+			return fmt.Errorf("demux connection cancelled")
+		case <-gsd.ctx.Done():
+			return fmt.Errorf("demux stopped")
+		case c.w <- rpc:
+			return nil
+		}
+	}
+
+	return internal.NewFnReadWriter(read, write)
 }
